@@ -49,7 +49,7 @@ man = {
                  'kind_free_text': 'Lean 4 model + theorems (lake build, axiom audit, leanchecker in thorough tier); translator regenerates leaf arithmetic from /repo each run; differential correspondence of the model driver vs the real votelib; oracle-driven failing-input search'}],
     'checks': checks,
     'not_applicable': na,
-    'notes': 'See DESIGN.md. Known findings: known_findings.json.',
+    'notes': 'See DESIGN.md (section 12 = as built). Known findings: known_findings/Cxx.json, one file per property (summary FINDINGS.md); seeded changes used to test the checks: seeded/ (summary SEEDED.md).',
 }
 json.dump(man, open(os.path.join(VERIF, 'MANIFEST.json'), 'w'), indent=1)
 print(len(checks), 'checks;', len(na), 'not claimed')
